@@ -26,7 +26,9 @@ ScalarCat == << "0", "-0", "12", "-3.25", "0.10", "1.50", "true", "false", "null
                 "\"Lorem ipsum dolor sit amet, consectetur adipiscing elit, sed do eiusmod tempor incididunt ut labore et dolore magna aliqua\"",
                 \* 47..: U+007F (DEL) is not a control character for RFC 8259: it may stand unescaped (placeholder <DEL>)
                 "\"a<DEL>b\"", "\"<DEL>\"", "\"\\u007f\"" >>
-KeyCat    == << "\"a\"", "\"b\"", "\"\"", "\"a\\\"b\"", "\"a\\\\b\"", "\"a\\nb\"", "\"k\\u00e9\"", "\"<NONASCII-2>\"", "\"a b\"", "\"@k\"", "\"a/b\"", "\"k\\u001fz\"", "\"\\u0001\\b\\f\"", "\"k<DEL>\"" >>
+KeyCat    == << "\"a\"", "\"b\"", "\"\"", "\"a\\\"b\"", "\"a\\\\b\"", "\"a\\nb\"", "\"k\\u00e9\"", "\"<NONASCII-2>\"", "\"a b\"", "\"@k\"", "\"a/b\"", "\"k\\u001fz\"", "\"\\u0001\\b\\f\"", "\"k<DEL>\"",
+                \* 15..: keys whose own text begins and ends with a quotation mark, is one, or is a backslash
+                "\"\\\"a\\\"\"", "\"\\\"\\\"\"", "\"\\\"\"", "\"\\\\\"", "\"\\\"a\"" >>
 
 VARIABLES stk,     \* open containers: records [k |-> "o"|"a", n |-> members so far, used |-> keys used]
           out,     \* tokens emitted: "{" "}" "[" "]" <<"key", i>> <<"scalar", i>>
